@@ -104,6 +104,31 @@ func runRemote(o *opts) {
 			must(fmt.Errorf("remote commit: %s", res.Stderr))
 		}
 		ref := p.observe()
+		// files whose bytes are exactly the manifest of a sibling directory (the file and the
+		// directory then share one cache object): added after the first commit, then recommitted
+		if fi, err := os.Stat(filepath.Join(p.Root, "A")); err == nil && fi.IsDir() && rr.chance(1, 2) {
+			k := 0
+			for _, ob := range ref.Cache {
+				if strings.HasPrefix(string(ob.Data), `{"path":"same`) {
+					for j := 0; j < 3; j++ {
+						must(os.WriteFile(filepath.Join(p.Root, "A", fmt.Sprintf("copy%d_%d.json", k, j)), ob.Data, 0o644))
+					}
+					k++
+				}
+			}
+			if k > 0 {
+				// back to plain files so that the reference tree has no links
+				if res := p.dud("", "checkout", "--copy"); res.Exit != 0 {
+					must(fmt.Errorf("remote checkout --copy: %s", res.Stderr))
+				}
+				plainRoot = p.observe().Root.clone()
+				if res := p.dud("", "commit"); res.Exit != 0 {
+					must(fmt.Errorf("remote recommit: %s", res.Stderr))
+				}
+				ref = p.observe()
+				s.count("file-equal-to-a-sibling-directory-manifest")
+			}
+		}
 		s.count(fmt.Sprintf("stages:%d", nst))
 		// some objects are already on the remote
 		if rr.chance(1, 2) {
